@@ -16,8 +16,8 @@ CHECKS = {
 
 CHECKS["C02"] = dict(
     category="proof",
-    text="solver.step / solver_mle.step / solver_dynamic.step are verified to be exactly one textbook EKF step (predict with the prior transition, linearise at the predicted mean with the documented Jacobian structure, condition on zero data with damping) for every state, step size, damping and vector field (uninterpreted f with uninterpreted Jacobian), per listed configuration; smoother steps additionally carry the RTS gain.",
-    note="configurations and (q,d) shapes are enumerated (values are not bounded); gain non-singularity (solve_triu) is an inherited precondition; Kalman gain is a ghost witness from the memoised revert contract; grids follow by induction over fold(step) (solve_fixed_grid scan body); real arithmetic",
+    text="solver.step / solver_mle.step / solver_dynamic.step are verified to be exactly one textbook EKF step (predict with the prior transition, linearise at the predicted mean with the documented Jacobian structure, condition on zero data with damping) for every state, step size, damping and vector field (uninterpreted f with uninterpreted Jacobian), per listed configuration; smoother steps additionally carry the RTS gain. solver*.init is verified with and without constraint_init: the initial state is the prior's initial random variable, or its exact Gaussian conditioning on the linearised initial constraint (least-squares gain), with the documented auxiliary state (MLE running scale = whitened RMS of the initial innovation, count 1).",
+    note="configurations and (q,d) shapes are enumerated (values are not bounded); gain non-singularity (solve_triu) is an inherited precondition; Kalman gain is a ghost witness from the memoised revert contract; grids follow by induction over fold(step) (solve_fixed_grid scan body); for the least-squares gain of the initial update a non-singular innovation factor is an inherited precondition (ghost inverse), under which the least-squares residual vanishes (left-cancellation lemma); real arithmetic",
     design_ref="DESIGN.md section 4 (C02)",
 )
 
@@ -43,13 +43,13 @@ CHECKS["C05"] = dict(
 CHECKS["C09"] = dict(
     category="proof",
     text="Integrated Wiener priors: cholesky_hilbert, system_matrices_1d_iwp, preconditioner_taylor and transition() of the three factorisations (priors built by the real constructors inside the trace) are verified exactly: after removing the preconditioner the transition is (exp(hN) (x) I, 0, sigma^2 base^2 (x) exact Gramian) for all h>0, scales; transitions over h1 then h2 compose to h1+h2.",
-    note="orders q are enumerated (quick q<=3, thorough q<=10), d<=2; sqrt(odd) are algebraic atoms, qr_r is a kernel axiom. Exponential / OU / Matern priors (dense): transition() with the prior built by the real constructor is verified to be (EXPM(hA), 0, sigma^2 GRAMQ(hA, h B B^T)) with the documented companion drift and B = e_q (x) diag(base), where EXPM / GRAMQ are uninterpreted and exp_gram_cholesky is abstracted by its contract (two similarity identities of EXPM / GRAMQ under a diagonal change of basis are axioms); its doubling step is verified; the Pade / Legendre initialisers are checked against table-independent order conditions on the polynomials extracted from the real init (1x1 symbolic drift). NOT proved: the doubling *loop* of exp_gram_cholesky (symbolic trip count) and the accuracy 'to working precision' of the truncated approximations (undecidable in real arithmetic)",
+    note="orders q are enumerated (quick q<=3, thorough q<=10), d<=2; sqrt(odd) are algebraic atoms, qr_r is a kernel axiom. Exponential / OU / Matern priors (dense): transition() with the prior built by the real constructor is verified to be (EXPM(hA), 0, sigma^2 GRAMQ(hA, h B B^T)) with the documented companion drift and B = e_q (x) diag(base), where EXPM / GRAMQ are uninterpreted and exp_gram_cholesky is abstracted by its contract (two similarity identities of EXPM / GRAMQ under a diagonal change of basis are axioms); its doubling step is verified; the Pade / Legendre initialisers are checked against table-independent order conditions on the polynomials extracted from the real init (1x1 symbolic drift). the scaling-and-squaring loop of exp_gram_cholesky is verified with a while rule for every trip count (result = exact doubling recursion applied ceil(max(s,0)) times to the initialiser's output, ghost state (count, Phi, G); sign fix keeps the Gramian), and the scaling step hands (A 2^-s, B 2^-s/2) to the initialiser (ceil is an atom with bracketing axioms, integrality not modelled). NOT proved: the accuracy 'to working precision' of the truncated approximations (undecidable in real arithmetic); that the doubling recursion applied to exact (e^{A/2^s}, G(A/2^s)) gives (e^A, G(A)) is the semigroup / Gramian-additivity lemma, stated",
     design_ref="DESIGN.md section 4 (C09)",
 )
 CHECKS["C10"] = dict(
     category="proof",
-    text="jetexpand_ode_unroll / padded_scan / via_jvp / doubling_unroll are verified to return the exact solution derivatives for every polynomial vector field (symbolic coefficients, explicit time dependence) of the enumerated degree/dimension/order, every initial value and time, flat and pytree states; oracle: total-derivative recursion via nested jax.jvp.",
-    note="polynomial degree/dimension/number of coefficients are enumerated per instance; jax.experimental.jet and jax.jvp of polynomial primitives are traced by real JAX (trusted); jetexpand_residual (Gauss-Newton) is not covered here",
+    text="jetexpand_ode_unroll / padded_scan / via_jvp / doubling_unroll are verified to return the exact solution derivatives for every polynomial vector field (symbolic coefficients, explicit time dependence) of the enumerated degree/dimension/order, every initial value and time, flat and pytree states; oracle: total-derivative recursion via nested jax.jvp. jetexpand_residual: what is handed to the constrained least-squares solver and what is done with its answer.",
+    note="polynomial degree/dimension/number of coefficients are enumerated per instance; jax.experimental.jet and jax.jvp of polynomial primitives are traced by real JAX (trusted); jetexpand_residual is verified against an abstract least-squares solver obeying the contract proved for the real Gauss-Newton routine in C19 (returned point = mean + L L^T w): given coefficients come back unchanged and are not degrees of freedom, every added coefficient is one, the objective is the residual of the leading coefficients at the requested time; that a converged solve returns the true coefficients when the constraints determine them is the composition with C19 (exit justified) and C11 (lifted residual = total derivatives), stated",
     design_ref="DESIGN.md section 4 (C10)",
 )
 
@@ -88,7 +88,7 @@ CHECKS["C03"] = dict(
 CHECKS["C04"] = dict(
     category="proof",
     text="MLE mode: per step, running'^2 (n+1) = running^2 n + term^2 with term the whitened RMS of the innovation under the EKF innovation covariance (ghost: C w = r, C C^T = S); at the end scale^2 N = running^2 (with correction) or scale = running, and returned covariances are scale^2 times the unit-scale ones (per dimension for block-diag). Dynamic mode: the per-step scale is the whitened RMS of the residual of the mean-only prediction, the process noise is scaled by it, and it is what is reported. Uncalibrated: scale one.",
-    note="equivariance under the base scale c (means equal, scale/c, calibrated covariances equal, accepted steps equal) follows from the homogeneity of the proved EKF/estimator formulas for damp=0 together with C06/C07 -- this homogeneity argument is a lemma about the specification and is NOT separately machine-checked; smoother finalisation is C03",
+    note="equivariance under the base scale c (means equal, scale/c, calibrated covariances equal, accepted steps equal) follows from the homogeneity of the proved EKF/estimator formulas for damp=0 together with C06/C07 -- the homogeneity of the EKF/estimator specification is machine-checked as a lemma (contracts/lemmas.py: scale_equivariance_of_the_ekf_specification); its composition with the step contracts over a whole solve is induction over fold(step), stated; smoother finalisation is C03",
     design_ref="DESIGN.md section 4 (C04)",
 )
 
@@ -107,14 +107,14 @@ CHECKS["C12"] = dict(
 
 CHECKS["C15"] = dict(
     category="proof",
-    text="Layout part: for nested dict / tuple / namedtuple states with leaves of rank 0..3, flatten_tree and unflatten_array of the three factorisations are mutually inverse with the documented ravel orders (coefficient-major dense, (n,d) isotropic, (d,n) block-diagonal), and means / standard deviations come back in the caller's structure with the caller's values (pure data movement, decided exactly by index tracing).",
-    note="NOT covered by a contract: permutation equivariance (would be a relational lemma like C14) and the jit / vmap clauses -- equality of jit(f) / vmap(f) with f is JAX's specification of its transformations, not a property of a function in /repo; what the other checks establish is that every function under contract extracts to a closed, effect-free jaxpr from abstract inputs (the precondition under which JAX's contract applies). Time-axis prepending is part of the C04 userfriendly_output contracts.",
+    text="Layout part: for nested dict / tuple / namedtuple states with leaves of rank 0..3, flatten_tree and unflatten_array of the three factorisations are mutually inverse with the documented ravel orders (coefficient-major dense, (n,d) isotropic, (d,n) block-diagonal), and means / standard deviations come back in the caller's structure with the caller's values (pure data movement, decided exactly by index tracing). Permutation: a machine-checked lemma about the specification -- the first-order EKF step for the permuted problem (v = Pi u, field Pi f(Pi^T v, t), uninterpreted f, Jacobian obtained by differentiating the permuted field) started from the permuted state has the permuted gain / whitening witnesses, permuted mean and covariance and the same quasi-MLE term; with the C02 step contracts and gain uniqueness (C14 lemma) the dense solver is permutation-equivariant step by step.",
+    note="NOT covered by a contract: the jit / vmap clauses -- equality of jit(f) / vmap(f) with f is JAX's specification of its transformations, not a property of a function in /repo; what the other checks establish is that every function under contract extracts to a closed, effect-free jaxpr from abstract inputs (the precondition under which JAX's contract applies). Time-axis prepending is part of the C04 userfriendly_output contracts.",
     design_ref="DESIGN.md section 4 (C15), 8.4",
 )
 CHECKS["C16"] = dict(
     category="proof",
-    text="The only hand-written differentiation rule, qr_r_jvp, is verified against the derivative of the kernel contract of qr_r (R upper triangular, R^T R = M^T M): the differentiated Gram identity holds; upper-triangularity of the tangent fails (known finding). stop_gradient occurs in the extracted jaxprs of the steps / step attempts only at the two documented places and only when the flags request it; the custom rule is linear in the tangent and built from transposable primitives (forward = reverse).",
-    note="JAX's differentiation of standard primitives (and hence 'derivatives equal directional derivatives' away from the custom rule) is trusted, not proved; finiteness side conditions (sqrt/div/log at singular points) are not discharged; reduced QR (jnp.linalg.qr) is a kernel axiom (Q R = M, Q^T Q = I)",
+    text="The only hand-written differentiation rule, qr_r_jvp, is verified against the derivative of the kernel contract of qr_r (R upper triangular, R^T R = M^T M): the differentiated Gram identity holds; upper-triangularity of the tangent fails (known finding). stop_gradient occurs in the extracted jaxprs of the steps / step attempts only at the two documented places and only when the flags request it; the custom rule is linear in the tangent and built from transposable primitives (forward = reverse). Side condition for finite derivatives at exact (zero-covariance) states: the std computations of the three normals apply no sqrt / division / log / power to a quantity that vanishes there (decided on the symbolic evaluation of the real code; found and fixed a defect in the isotropic and block-diagonal models).",
+    note="JAX's differentiation of standard primitives (and hence 'derivatives equal directional derivatives' away from the custom rule) is trusted, not proved; finiteness side conditions are discharged for the std computations only (not for lstsq_svd inside the time-series loss or for the norms of the error estimate); reduced QR (jnp.linalg.qr) is a kernel axiom (Q R = M, Q^T Q = I)",
     design_ref="DESIGN.md section 4 (C16), 8.5",
 )
 CHECKS["C20"] = dict(
